@@ -175,6 +175,46 @@ def _module(isa, fmt):
     return ir, m, b, callee, datasym
 
 
+def h_call_reuse(eng, target):
+    """One CallPatch object applied at two places (what a scope does): the argument callables are consulted for each
+    insertion with that insertion's context, and each text carries that insertion's values."""
+    from gtirb_rewriting import InsertionContext
+    from gtirb_rewriting.patches import CallPatch
+
+    isa, fmt = {"x64-elf": (gtirb.Module.ISA.X64, gtirb.Module.FileFormat.ELF),
+                "x64-pe": (gtirb.Module.ISA.X64, gtirb.Module.FileFormat.PE),
+                "ia32-pe": (gtirb.Module.ISA.IA32, gtirb.Module.FileFormat.PE),
+                "arm64": (gtirb.Module.ISA.ARM64, gtirb.Module.FileFormat.ELF)}[target]
+    ir, m, blk, callee, datasym = _module(isa, fmt)
+    v1 = eng.int("first_value", 0, 0x7FFF)
+    v2 = eng.int("second_value", 0, 0x7FFF)
+    eng.assume(v1 != v2)
+    ctx1 = InsertionContext(m, None, blk, 0, stack_adjustment=0)
+    ctx2 = InsertionContext(m, None, blk, 4, stack_adjustment=0)
+    seen = []
+
+    def cb(ctx):
+        seen.append(ctx)
+        return v1 if ctx is ctx1 else v2
+    patch = CallPatch(callee, [cb, 7])
+    asm1 = patch.get_asm(ctx1)
+    n1 = len(seen)
+    asm2 = patch.get_asm(ctx2)
+    eng.check(n1 >= 1 and all(c is ctx1 for c in seen[:n1]), "first insertion: callable not consulted with its context")
+    eng.check(len(seen) > n1 and all(c is ctx2 for c in seen[n1:]),
+              "second insertion of the same CallPatch: the argument callable was not consulted with the new context")
+    if eng.sym:
+        import re
+        nums1 = [TOKENS[t] for t in re.findall(r"@T\d+\w*@", asm1)]
+        nums2 = [TOKENS[t] for t in re.findall(r"@T\d+\w*@", asm2)]
+        eng.check(any(eng.must(x == v1) for x in nums1) and not any(eng.must(x == v2) for x in nums1),
+                  "first insertion does not pass the first value")
+        eng.check(any(eng.must(x == v2) for x in nums2) and not any(eng.must(x == v1) for x in nums2),
+                  "second insertion does not pass the value computed for its context")
+    else:
+        eng.check(asm1 != asm2, "both insertions pass the same value")
+
+
 def h_call(eng, target, nargs, kinds, conv_kind, adj_kind):
     from gtirb_rewriting import InsertionContext
     from gtirb_rewriting.abi import CallingConventionDesc
@@ -430,8 +470,11 @@ def make_check(tier):
                     continue
                 chk.add("call/%s/%dargs/tiny/%s/adj-symbolic" % (target, n, conv_kind), h_call,
                         params=dict(target=target, nargs=n, kinds=["tiny"], conv_kind=conv_kind, adj_kind="symbolic"), timeout=3000)
+    for target in ("x64-elf", "x64-pe", "ia32-pe", "arm64"):
+        chk.add("reuse/%s" % target, h_call_reuse, params=dict(target=target), timeout=600)
     chk.bounds = {
         "targets": "x86-64 ELF, x86-64 PE, IA32 PE, ARM64 ELF",
+        "reuse": "one CallPatch with a callable argument applied with two insertion contexts",
         "arguments": "0..%d arguments; in each shape one argument (first, last register, first stack slot, last) is an integer over "
                      "the full range [-2^63, 2^64) or a symbol, the others integers in [0, 2^15); all integers through callables; "
                      "thorough adds three (ARM64: two) full-range integers at once" % counts[-1],
